@@ -359,7 +359,8 @@ def write_replay(prop, violation, tier, seed):
 
 
 def write_evidence(prop, tier, seed, res: Result, rule, assumptions, wall_s, nviol, extra_cov=None):
-    os.makedirs(os.path.join(VERIF, "evidence"), exist_ok=True)
+    evdir = os.path.join(VERIF, "evidence") if os.path.realpath(REPO) == "/repo" else os.path.join(VERIF, "out", "evidence-alt")
+    os.makedirs(evdir, exist_ok=True)
     cov = {
         "evaluations": int(res.evaluations),
         "distinct_nontrivial": int(res.distinct_nontrivial),
@@ -384,7 +385,7 @@ def write_evidence(prop, tier, seed, res: Result, rule, assumptions, wall_s, nvi
         "wall_s": round(wall_s, 3),
         "violations": int(nviol),
     }
-    path = os.path.join(VERIF, "evidence", f"{prop}.json")
+    path = os.path.join(evdir, f"{prop}.json")
     tmp = path + ".tmp"
     with open(tmp, "w") as f:
         json.dump(ev, f, indent=1, sort_keys=True)
